@@ -182,6 +182,96 @@ CHECKS["C13"] = {
                     "immutable inode flag: modelled as a boolean that blocks rename-over and remove"],
 }
 
+# ---------------------------------------------------------------- C01
+WORLD = ["internal_ctlog/zz_verif_world.go"]
+c01_cases = [
+    case("n0=0 1 round pool 1 F=1 C=0", "VerifC01", [0, 1, 1, 1, 0], ["final", "audited"], Q),
+    case("n0=0 1 round pool 1 F=0 C=1", "VerifC01", [0, 1, 1, 0, 1], ["final", "audited"], Q),
+    case("n0=1 2 rounds pool 1 F=1 C=0", "VerifC01", [1, 2, 1, 1, 0], ["final", "audited", "fatal"], Q),
+    case("n0=255 1 round pool 2 F=1 C=0", "VerifC01", [255, 1, 2, 1, 0], ["final", "audited"], Q),
+    case("n0=255 1 round pool 2 F=0 C=1", "VerifC01", [255, 1, 2, 0, 1], ["final", "audited"], Q),
+    case("n0=0 2 rounds pool 2 F=1 C=1", "VerifC01", [0, 2, 2, 1, 1], ["final", "audited"], T),
+    case("n0=254 2 rounds pool 3 F=1 C=1", "VerifC01", [254, 2, 3, 1, 1], ["final", "audited"], T),
+    case("n0=256 2 rounds pool 2 F=2 C=1", "VerifC01", [256, 2, 2, 2, 1], ["final", "audited"], T),
+    case("n0=2 3 rounds pool 1 F=2 C=2", "VerifC01", [2, 3, 1, 2, 2], ["final", "audited"], T),
+]
+CHECKS["C01"] = {
+    "level": "model_checking",
+    "jobs": [dict(CTLOG, harness=WORLD + ["internal_ctlog/zz_verif_c01.go"], native=False, cases=c01_cases)],
+    "bounds": {"quick": "pre-states of 0, 1 and 255 leaves; 1-2 rounds of 0-2 symbolic submissions; one fault (any storage/lock operation, applied or not) or one crash (before any operation); every clock reading symbolic",
+               "thorough": "pre-states 0, 2, 254, 256; up to 3 rounds, pool up to 3, up to 2 faults and 2 crashes combined"},
+    "assumptions": [IDEAL_HASH, "ideal deterministic ECDSA / ML-DSA signatures (opaque keys)", "lock store = a correct compare-and-swap register (the real ones are C05)",
+                    "tar, gzip, JSON, SQLite cache, X.509 parsing modelled by the contracts of DESIGN.md §3.4", "crash = fail-stop disconnection at an operation boundary"],
+}
+
+# ---------------------------------------------------------------- C03 / C04
+# VerifC03(n0, pool, faults, crashes, shape, unparseable)
+c03_cases = [
+    case("n0=0 pool 1 one crash", "VerifC03", [0, 1, 0, 1, 0, 0], ["recovered", "resumed", "acknowledged"], Q),
+    case("n0=255 pool 2 one crash (tile boundary)", "VerifC03", [255, 2, 0, 1, 0, 0], ["recovered", "resumed", "acknowledged"], Q),
+    case("n0=1 pool 1 two crashes (crash during recovery)", "VerifC03", [1, 1, 0, 2, 0, 0], ["recovered", "resumed"], Q),
+    case("n0=254 pool 3 one crash", "VerifC03", [254, 3, 0, 1, 0, 0], ["recovered", "resumed"], T),
+    case("n0=256 pool 1 two crashes", "VerifC03", [256, 1, 0, 2, 0, 0], ["recovered", "resumed"], T),
+    case("n0=0 pool 2 crash and fault", "VerifC03", [0, 2, 1, 1, 0, 0], ["recovered", "resumed"], T),
+    case("n0=255 pool 2 two crashes one fault", "VerifC03", [255, 2, 1, 2, 0, 0], ["recovered", "resumed"], T),
+]
+c04_cases = [
+    case("n0=0 precertificate, one fault", "VerifC03", [0, 1, 1, 0, 1, 0], ["recovered", "resumed", "acknowledged"], Q),
+    case("n0=0 two issuers, one fault", "VerifC03", [0, 1, 1, 0, 3, 0], ["recovered", "resumed", "acknowledged"], Q),
+    case("n0=255 pool 2 unparseable certificates, one fault", "VerifC03", [255, 2, 1, 0, 0, 1], ["recovered", "resumed", "acknowledged"], Q),
+    case("n0=1 issuer, one crash", "VerifC03", [1, 1, 0, 1, 2, 0], ["recovered", "resumed"], Q),
+    case("n0=254 pool 3 issuers, two faults", "VerifC03", [254, 3, 2, 0, 2, 1], ["recovered", "resumed"], T),
+    case("n0=256 precertificates, fault and crash", "VerifC03", [256, 2, 1, 1, 1, 1], ["recovered", "resumed"], T),
+]
+WORLD_ASSUME = [IDEAL_HASH, "ideal deterministic ECDSA / ML-DSA signatures (opaque keys)", "lock store = a correct compare-and-swap register (the real ones are C05)",
+                "tar, gzip, JSON, SQLite cache, X.509 parsing modelled by the contracts of DESIGN.md §3.4", "crash = fail-stop disconnection at an operation boundary",
+                "errgroup/goroutines: uploads started with Go run when the caller blocks in Wait; a closure never waited for never runs"]
+CHECKS["C03"] = {
+    "level": "model_checking",
+    "jobs": [dict(CTLOG, harness=WORLD + ["internal_ctlog/zz_verif_c01.go", "internal_ctlog/zz_verif_c03.go"], native=False, cases=c03_cases)],
+    "bounds": {"quick": "pre-states 0, 1, 255 leaves; one round of 1-2 symbolic submissions; 1-2 crashes before any storage/lock operation of the round or of the recovery; strictly increasing symbolic clock",
+               "thorough": "pre-states 254, 256; pool up to 3; two crashes combined with one fault"},
+    "assumptions": WORLD_ASSUME + ["strictly increasing clock (clock anomalies are C01)", "no tampering (C08)"],
+}
+CHECKS["C04"] = {
+    "level": "model_checking",
+    "jobs": [dict(CTLOG, harness=WORLD + ["internal_ctlog/zz_verif_c01.go", "internal_ctlog/zz_verif_c03.go"], native=False, cases=c04_cases)],
+    "bounds": {"quick": "entry shapes: certificate, precertificate, 1-2 issuers, unparseable certificates (symbolic first byte); pre-states 0, 1, 255; one fault (applied or not) or one crash",
+               "thorough": "pre-states 254, 256; pool up to 3; two faults or fault+crash"},
+    "assumptions": WORLD_ASSUME + ["exact gzip bytes and the JSON spelling of names tiles are outside the claim (their contracts are used)"],
+}
+
+# ---------------------------------------------------------------- C02 / C07
+# VerifC02(n0, faults, actions, cacheLoss)
+c02_cases = [
+    case("n0=0 one interleaved action, no faults", "VerifC02", [0, 0, 1, 0], ["done", "ack after the round", "duplicate"], Q),
+    case("n0=0 one fault, one interleaved action", "VerifC02", [0, 1, 1, 0], ["done", "fatal"], Q),
+    case("n0=255 one fault, one interleaved action", "VerifC02", [255, 1, 1, 0], ["done"], Q),
+    case("n0=1 two interleaved actions", "VerifC02", [1, 0, 2, 0], ["done", "duplicate"], T),
+    case("n0=255 two faults, two actions", "VerifC02", [255, 2, 2, 0], ["done"], T),
+]
+c07_cases = [
+    case("n0=0 duplicates at every yield point", "VerifC02", [0, 0, 1, 0], ["done", "duplicate"], Q),
+    case("n0=1 cache loss or rollback", "VerifC02", [1, 0, 1, 1], ["done", "duplicate"], Q),
+    case("n0=1 failed round then resubmission", "VerifC02", [1, 1, 1, 0], ["done", "fatal"], Q),
+    case("n0=255 two actions with cache loss", "VerifC02", [255, 0, 2, 1], ["done"], T),
+    case("n0=2 two faults two actions", "VerifC02", [2, 2, 2, 0], ["done"], T),
+]
+CHECKS["C02"] = {
+    "level": "model_checking",
+    "jobs": [dict(CTLOG, harness=WORLD + ["internal_ctlog/zz_verif_c01.go", "internal_ctlog/zz_verif_c03.go", "internal_ctlog/zz_verif_c02.go"], native=False, cases=c02_cases)],
+    "bounds": {"quick": "pre-states 0 and 255; one submission before the round, one interleaved poll-or-submission at any storage/lock/cache/pause yield point of the round, one late submission (all with symbolic bytes, so duplicates are decided by the solver), one fault; second round, restart, third round",
+               "thorough": "two interleaved actions, two faults"},
+    "assumptions": WORLD_ASSUME + ["submitters run as atomic sections at yield points (addLeafToPool holds poolMu for its whole critical section)", "SCT assembly over HTTP is checked in C09's harness"],
+}
+CHECKS["C07"] = {
+    "level": "model_checking",
+    "jobs": [dict(CTLOG, harness=WORLD + ["internal_ctlog/zz_verif_c01.go", "internal_ctlog/zz_verif_c03.go", "internal_ctlog/zz_verif_c02.go"], native=False, cases=c07_cases)],
+    "bounds": {"quick": "up to 5 submissions of 2 symbolic bytes (every duplicate pattern), placed before the round, at any yield point, between rounds and after a restart; cache rollback to any earlier state; one fault",
+               "thorough": "two interleaved actions, two faults, pre-state 255"},
+    "assumptions": WORLD_ASSUME + ["submitters run as atomic sections at yield points", "legacy 128-bit cache table and the recompute-cache tool are covered by the cache-key kernel check"],
+}
+
 # ---------------------------------------------------------------- manifest texts
 NOT_APPLICABLE = {}
 MANIFEST_TEXT = {
